@@ -93,6 +93,15 @@ theorem domPair_not_assoc_witness :
       (L.merge a (L.merge b c).1).1 = (([1, 2], 0) : List Nat × Nat) := by
   exact ⟨rfl, rfl⟩
 
+/-- `#[derive(Lattice)]` on a struct: the code the macro emits for three fields computes exactly
+the functions of `Pair<A, Pair<B, C>>` (merge, partial_cmp with its early exits, ==, is_bot,
+is_top, default, lattice_from), so derived structs are in the domain of every theorem. -/
+theorem derived_struct_is_nested_pair (a b c : LTy) :
+    lat (.tri a b c) = Lat.pair (lat a) (Lat.pair (lat b) (lat c)) ∧
+    (ok a = true → ok b = true → ok c = true → ok (.tri a b c) = true) := by
+  refine ⟨tri_eq_pair _ _ _, fun ha hb hc => ?_⟩
+  simp only [ok, okA, Bool.and_eq_true]; exact ⟨⟨ha, hb⟩, hc⟩
+
 /-- every nesting depth is covered: the side condition holds for arbitrarily deep towers -/
 theorem ok_tower (n : Nat) : ok (Nat.rec LTy.set (fun _ t => LTy.map (LTy.withBot (LTy.vec t))) n) = true := by
   induction n with
